@@ -94,11 +94,6 @@ def run(ctx):
 
     ctx.harness("./c21", "TestReplay", race=not ctx.quick, timeout=1500)
     st = json.load(open(ctx.path("stats.json")))
-    for gname in ("chat.create", "backend.write"):
-        if not st["gate_arrivals"].get(gname):
-            raise vlib.ToolError("hook_missing: gate %s never reached" % gname)
-    if not st["outs"].get("chat") or not st["outs"].get("ack") or not st["proxy_command_runs"]:
-        raise vlib.ToolError("vacuous run: outs=%s proxy runs=%s" % (st["outs"], st["proxy_command_runs"]))
     # probe in its own process: a plugin changes a signed chat message (forceKeyAuthentication on)
     import os
     pr = ctx.harness("./c21", "TestChangedSignedChat", check=False, timeout=600)
@@ -114,6 +109,12 @@ def run(ctx):
     for rj in rejected:
         ctx.finding(classify(rj), "backend packets of a real chat queue run are not allowed by C21 "
                     "(first unexplained event: %s)" % json.dumps(rj["bad"]), rj)
+    if not rejected:      # an all-accepted run must have exercised the gates and every kind of outcome
+        for gname in ("chat.create", "backend.write"):
+            if not st["gate_arrivals"].get(gname):
+                raise vlib.ToolError("hook_missing: gate %s never reached" % gname)
+        if not st["outs"].get("chat") or not st["outs"].get("ack") or not st["proxy_command_runs"]:
+            raise vlib.ToolError("vacuous run: outs=%s proxy runs=%s" % (st["outs"], st["proxy_command_runs"]))
     distinct = len({json.dumps([x["sent"], x["sched"]], sort_keys=True) for x in hists})
     cov = {
         "states": mc + tstates,
